@@ -121,12 +121,30 @@ func (f *Field) sortArgs() (errors []error) {
 				for _, a := range fd.args.list {
 					args = append(args, f.getArg(a.N))
 				}
+				// Keep arguments that are not declared at the end so they are
+				// reported every time the field is resolved, not just the first.
 				for _, av := range f.Args {
 					if fd.getArg(av.Arg) == nil {
-						errors = append(errors, valError(av.line, av.col, "%s is not an argument to %s", av.Arg, f.Name))
+						args = append(args, av)
 					}
 				}
 				f.Args = args
+				errors = f.undeclaredArgs()
+			}
+		}
+	}
+	return
+}
+
+// undeclaredArgs returns an error for each argument not declared by the field
+// definition of the container object type.
+func (f *Field) undeclaredArgs() (errors []error) {
+	if ot, _ := f.ConType.(*Object); ot != nil {
+		if fd := ot.fields.get(f.Name); fd != nil {
+			for _, av := range f.Args {
+				if av != nil && fd.getArg(av.Arg) == nil {
+					errors = append(errors, valError(av.line, av.col, "%s is not an argument to %s", av.Arg, f.Name))
+				}
 			}
 		}
 	}
